@@ -288,6 +288,22 @@ def run_harness(run, tier, seed, res, only_case=None):
             restarts += 1
             hk = next((e.get("key") for e in reversed(events) if e.get("ev") == "violation"), "?")
             restart_keys[hk] = restart_keys.get(hk, 0) + 1
+            # "re-run before reporting a hang": the case is repeated alone (same seed, same injected decisions) up to three
+            # times; a hang that shows again stands. One that does not is kept but marked unconfirmed - main() reports
+            # unconfirmed hangs only when the same key stalled in two different cases of this check.
+            if restart_keys[hk] <= 2:
+                confirmed = False
+                for _ in range(3):
+                    sub = RunResult()
+                    run_harness(run, tier, seed, sub, only_case=c)
+                    if any(v["key"] == hk for v in sub.violations):
+                        confirmed = True
+                        break
+                if not confirmed:
+                    for v in res.violations:
+                        if v["key"] == hk and v.get("case") == c and v.get("run") is run:
+                            v["unconfirmed_hang"] = True
+                    log("  %s case %s: %s not reproduced in 3 re-runs of the case" % (run_label(run), c, hk))
             if restart_keys[hk] >= 6:
                 # the same fatal finding six times in one run: the verdict cannot change any more and every
                 # further occurrence costs a hang window plus a process restart - stop this run here
@@ -435,6 +451,8 @@ def summarize(prop, tier, seed, res, spec, wall, nviol_unlisted, known_hits, ext
         "cases_per_run": per_run,
         "known_findings_reproduced": known_hits,
         "inconclusive": res.inconclusive,
+        "unconfirmed_hangs": [{"key": v["key"], "case": v.get("case"), "run": run_label(v["run"])}
+                              for v in getattr(res, "unconfirmed_hangs", [])],
     }
     if extra_cov:
         cov.update(extra_cov)
@@ -522,6 +540,20 @@ def main(argv):
         log("run %s: %d events, %d new violation(s), %.0fs" %
             (run_label(r), len(res.events), len(res.violations) - nv, time.time() - tr))
 
+    # unconfirmed hangs: a stall that could not be reproduced by re-running its case counts only if the same key stalled in
+    # at least two different cases; a single one makes that case inconclusive, nothing more
+    unc = {}
+    for v in res.violations:
+        if v.get("unconfirmed_hang"):
+            unc.setdefault(v["key"], set()).add((run_label(v["run"]), v.get("case")))
+    dropped = {k for k, cs in unc.items() if len(cs) < 2}
+    if dropped:
+        for v in res.violations:
+            if v.get("unconfirmed_hang") and v["key"] in dropped:
+                log("UNCONFIRMED-HANG key=%s case=%s run=%s: not reproduced in 3 re-runs and seen in one case only; "
+                    "that case is inconclusive, not counted as a violation" % (v["key"], v.get("case"), run_label(v["run"])))
+        res.unconfirmed_hangs = [v for v in res.violations if v.get("unconfirmed_hang") and v["key"] in dropped]
+        res.violations = [v for v in res.violations if not (v.get("unconfirmed_hang") and v["key"] in dropped)]
     # route violations through known findings
     known = load_known()
     unlisted = []
